@@ -185,3 +185,15 @@ two_loops(size_t n)
 		continue;
 	return (k);
 }
+
+/* a variable updated from itself by an invertible affine map: what was known of the old value is carried to the new one
+ * (old >= 1  =>  new = 2 old + 3 >= 5), and nothing stronger */
+size_t
+self_affine(size_t x)
+{
+
+	if (x == 0)
+		return (0);
+	x = x * 2 + 3;
+	return (x);
+}
